@@ -476,9 +476,18 @@ def r06_5(cx):
         m = re.match(r'packed::teddy::builder::x86_64::(\w+)::<(\d)>::new$', p)
         if m:
             need = feats.get(m.group(1))
-            avail = bool_gates(b, lambda x: is_call(x, r'is_available_%s$' % need))
-            nu = [bi for bi, t in b.calls(r'::new_unchecked$')]
-            ok = bool(avail) and len(nu) == 1 and not reachable_without(b, nu, [e for g in avail for e in g[2]])
+            # on the path summaries (helpers unfolded): every path that reaches new_unchecked has decided that the CPU feature is
+            # available -- through is_available_<feature>() or the std detection macro itself
+            from acverif.sym import summarize as _sum, canon as _cn
+            ok = False
+            rws = _sum(cx.facts, b)
+            reach = [r for r in rws if r.calls(r'::new_unchecked$')]
+            if reach:
+                ok = True
+                for r in reach:
+                    gate = [v for c, v in r.conds if is_call(_cn(c), r'(is_available_%s|__is_feature_detected::%s)$' % (need, need))]
+                    if not gate or not all(v is True for v in gate) or len(r.calls(r'::new_unchecked$')) != 1:
+                        ok = False
             cx.report('R15.2', b, 'availability-gate', ok, 'new_unchecked is reached only if is_available_%s()' % need if ok else '%s::new constructs the searcher without checking is_available_%s()' % (m.group(1), need))
     cx.floor('R15.2', 'SearcherT impls and dispatchers', n, 16)
 
